@@ -1,7 +1,10 @@
 // unit `files` — C20: role accessors as functions of the extension buckets
 use vstd::prelude::*;
 use std::path::PathBuf;
+use std::ffi::OsStr;
 verus! {
+//@include spec/prelude.rs
+broadcast use {axiom_str_ext};
 #[verifier::external_type_specification]
 #[verifier::external_body]
 pub struct ExPathBuf(std::path::PathBuf);
@@ -15,6 +18,17 @@ pub open spec fn opt_deref(o: Option<&PathBuf>) -> Option<PathBuf> {
     match o { Some(p) => Some(*p), None => None }
 }
 
+// std docs, Option::or_else: "Returns the option if it contains a value, otherwise calls f and returns the result."
+pub assume_specification<T, F: FnOnce() -> Option<T>>[ Option::<T>::or_else ](o: Option<T>, f: F) -> (r: Option<T>)
+    requires o is None ==> f.requires(()),
+    ensures o is Some ==> r == o, o is None ==> f.ensures((), r);
+
+// the `either` crate's Either (two variants, no invariants)
+pub enum Either<L, R> { Left(L), Right(R) }
+pub open spec fn either_deref(o: Option<Either<&PathBuf, &PathBuf>>) -> Option<Either<PathBuf, PathBuf>> {
+    match o { Some(Either::Left(p)) => Some(Either::Left(*p)), Some(Either::Right(p)) => Some(Either::Right(*p)), None => None }
+}
+
 impl Files {
 //@fn src/command_line/files.rs :: impl Files :: fn left
 //@ .ret r
@@ -25,6 +39,19 @@ impl Files {
 //@ .ret r
 //@ .spec
 //@     ensures opt_deref(r) == nth(self.programs@, 1),   // the next .lp file is the right program
+//@end
+//@fn src/command_line/files.rs :: impl Files :: fn specification
+//@ .ret r
+//@ .closure "|d20_x| Either::Right(d20_x)" as "|d20_x: &PathBuf| -> (z: Either<&PathBuf, &PathBuf>)"
+//@     ensures z == Either::<&PathBuf, &PathBuf>::Right(d20_x)
+//@ .closure "|d20_x| Either::Left(d20_x)" as "|d20_x: &PathBuf| -> (z: Either<&PathBuf, &PathBuf>)"
+//@     ensures z == Either::<&PathBuf, &PathBuf>::Left(d20_x)
+//@ .closure "|| self.programs.first()" as "|| -> (z: Option<Either<&PathBuf, &PathBuf>>)"
+//@     ensures z == (match nth(self.programs@, 0) { Some(p) => Some(Either::<&PathBuf, &PathBuf>::Left(&self.programs@[0])), None => None })
+//@ .spec
+//@     // the first .spec file if there is one, else the first .lp file (as the program that serves as specification)
+//@     ensures either_deref(r) == (if self.specifications@.len() > 0 { Some(Either::<PathBuf, PathBuf>::Right(self.specifications@[0])) }
+//@                                 else if self.programs@.len() > 0 { Some(Either::<PathBuf, PathBuf>::Left(self.programs@[0])) } else { None }),
 //@end
 //@fn src/command_line/files.rs :: impl Files :: fn program
 //@ .ret r
@@ -41,6 +68,59 @@ impl Files {
 //@ .spec
 //@     ensures opt_deref(r) == nth(self.proof_outlines@, 0),
 //@end
+}
+
+// ---- Files::sort: the classification step (the traversal — WalkDir, the file system — is not under contract) -------------------
+#[verifier::external_type_specification]
+#[verifier::external_body]
+pub struct ExOsStr(std::ffi::OsStr);
+
+#[verifier::external_type_specification]
+#[verifier::external_body]
+pub struct ExPath(std::path::Path);
+
+/// the extension of a path as text (None: no extension, or not valid UTF-8)
+pub uninterp spec fn os_text(o: &OsStr) -> Option<Seq<char>>;
+// std docs, Path::extension / OsStr::to_str; ext_of is their composition
+pub uninterp spec fn path_ext(p: &std::path::Path) -> Option<&OsStr>;
+pub assume_specification[ std::path::Path::extension ](p: &std::path::Path) -> (r: Option<&OsStr>)
+    ensures r == path_ext(p);
+pub uninterp spec fn as_path(p: &PathBuf) -> &std::path::Path;
+pub assume_specification[ <PathBuf as std::ops::Deref>::deref ](p: &PathBuf) -> (r: &std::path::Path)
+    ensures r == as_path(p);
+pub open spec fn ext_text(p: PathBuf) -> Option<Seq<char>> {
+    match path_ext(as_path(&p)) { Some(o) => os_text(o), None => None }
+}
+
+/// the five buckets after `path` was appended to bucket b
+pub open spec fn pushed(a: Files, z: Files, b: Bucket, path: PathBuf) -> bool {
+    &&& z.programs@ == (if b is Programs { a.programs@.push(path) } else { a.programs@ })
+    &&& z.specifications@ == (if b is Specifications { a.specifications@.push(path) } else { a.specifications@ })
+    &&& z.user_guides@ == (if b is UserGuides { a.user_guides@.push(path) } else { a.user_guides@ })
+    &&& z.proof_outlines@ == (if b is ProofOutlines { a.proof_outlines@.push(path) } else { a.proof_outlines@ })
+    &&& z.other@ == (if b is Other { a.other@.push(path) } else { a.other@ })
+}
+
+/// the classification step of Files::sort (the statement executed for every directory entry that is a file):
+/// the file is appended to the bucket that its extension alone determines — lp, spec, ug, po, anything else — and nothing else changes
+fn sort_one(result: &mut Files, path: PathBuf)
+    ensures pushed(*old(result), *final(result), bucket_of(ext_text(path)), path),
+{
+    proof { reveal_strlit("lp"); reveal_strlit("spec"); reveal_strlit("ug"); reveal_strlit("po"); }
+//@stmts src/command_line/files.rs :: impl Files :: fn sort
+//@ .from "match path.extension().and_then(OsStr::to_str) {"
+//@ .until "} } Ok(result)"
+//@end
+}
+
+pub assume_specification[ OsStr::to_str ](o: &OsStr) -> (r: Option<&str>)
+    ensures (match r { Some(t) => os_text(o) == Some(t@), None => os_text(o) is None });
+
+pub enum Bucket { Programs, Specifications, UserGuides, ProofOutlines, Other }
+/// C20: the role of a file depends only on its extension
+pub open spec fn bucket_of(e: Option<Seq<char>>) -> Bucket {
+    if e == Some("lp"@) { Bucket::Programs } else if e == Some("spec"@) { Bucket::Specifications } else if e == Some("ug"@) { Bucket::UserGuides }
+    else if e == Some("po"@) { Bucket::ProofOutlines } else { Bucket::Other }
 }
 
 /// C20, last sentence: swapping the two programs swaps exactly the left/right roles.
